@@ -149,6 +149,10 @@ func (m *Method) Call(self Object, args Tuple) (Object, error) {
 			return nil, ExceptionNewf(TypeError, "%s() takes exactly 1 argument (%d given)", m.Name, len(args))
 		}
 		return f(self, args[0])
+	case InternalMethod:
+		// globals(), locals(), eval()... need the calling frame: the VM
+		// handles them itself when they are called from Python code
+		return nil, ExceptionNewf(NotImplementedError, "%s() can only be called directly from Python code, not through a callback", m.Name)
 	}
 	panic(fmt.Sprintf("Unknown method type: %T", m.method))
 }
@@ -165,6 +169,8 @@ func (m *Method) CallWithKeywords(self Object, args Tuple, kwargs StringDict) (O
 		func(Object) (Object, error),
 		func(Object, Object) (Object, error):
 		return nil, ExceptionNewf(TypeError, "%s() takes no keyword arguments", m.Name)
+	case InternalMethod:
+		return nil, ExceptionNewf(NotImplementedError, "%s() can only be called directly from Python code, not through a callback", m.Name)
 	}
 	panic(fmt.Sprintf("Unknown method type: %T", m.method))
 }
